@@ -23,6 +23,7 @@ pub struct SplitChunk {
 #[derive(Debug, Clone, Serialize)]
 pub struct SplitSuggestion {
     /// Original file path
+    #[serde(serialize_with = "serialize_path_lossy")]
     pub original_path: PathBuf,
     /// Total lines in the original file
     pub total_lines: usize,
@@ -32,6 +33,12 @@ pub struct SplitSuggestion {
     pub functions: Vec<FunctionInfo>,
     /// Suggested split chunks
     pub chunks: Vec<SplitChunk>,
+}
+
+/// Serialize a path like every other path in the reports: lossily. The derived impl fails on
+/// names that are not valid UTF-8, which turned `--suggest` into a serialization error.
+fn serialize_path_lossy<S: serde::Serializer>(path: &Path, serializer: S) -> Result<S::Ok, S::Error> {
+    serializer.serialize_str(&path.to_string_lossy())
 }
 
 impl SplitSuggestion {
